@@ -469,6 +469,16 @@ type natsWatcherAdapter struct {
 
 	once      sync.Once
 	entryChan chan Entry
+
+	doneOnce sync.Once
+	stopOnce sync.Once
+	done     chan struct{}
+}
+
+// stopped returns the channel that Stop closes.
+func (a *natsWatcherAdapter) stopped() chan struct{} {
+	a.doneOnce.Do(func() { a.done = make(chan struct{}) })
+	return a.done
 }
 
 // Updates returns one stable channel: the forwarding goroutine is started on the first call only,
@@ -478,11 +488,17 @@ func (a *natsWatcherAdapter) Updates() <-chan Entry {
 		a.entryChan = make(chan Entry, 1)
 		go func() {
 			defer close(a.entryChan)
+			stopped := a.stopped()
 			for natsEntry := range a.watcher.Updates() {
+				var entry Entry
 				if natsEntry != nil {
-					a.entryChan <- &natsEntryAdapter{entry: natsEntry}
-				} else {
-					a.entryChan <- nil
+					entry = &natsEntryAdapter{entry: natsEntry}
+				}
+				// a consumer that has stopped the watch no longer receives: do not wait for it
+				select {
+				case a.entryChan <- entry:
+				case <-stopped:
+					return
 				}
 			}
 		}()
@@ -492,6 +508,7 @@ func (a *natsWatcherAdapter) Updates() <-chan Entry {
 
 func (a *natsWatcherAdapter) Stop() {
 	_ = a.watcher.Stop()
+	a.stopOnce.Do(func() { close(a.stopped()) })
 }
 
 type natsEntryAdapter struct {
